@@ -105,6 +105,22 @@ def plan(prop, tier, seed):
 
 # ------------------------------------------------------------------ generation
 
+def _gen_query(rng, backend, wire=None):
+    """A query from the typed generator of the job engine (outside the hand-written pool). Its metadata
+    declarations are dropped with some probability so that a later query *relies on the default typing*
+    of a method an earlier query declared."""
+    from ..job import qgen
+    import hashlib
+    q = qgen.generate(rng, backend)
+    md = list(q["md"])
+    if md and rng.random() < 0.4:
+        keep = [m for m in md if rng.random() < 0.5]
+        md = keep
+    names = [f"{m[1].get('type_string', m[1].get('name', '?'))}.{m[1].get('method_name', '')}" for m in md]
+    return {"name": "gen:" + hashlib.sha256(repr(q["steps"]).encode()).hexdigest()[:8], "backend": backend, "steps": q["steps"],
+            "md_names": names, "md": md, "wire": wire or q["wire"]}
+
+
 def _query(rng, backend, name=None, md_rate=0.5, foreign_rate=0.05, wire=None, ld=False, omit_needs=0.12):
     qs = pools.QUERIES[backend]
     if name is None:
@@ -162,6 +178,7 @@ def make_case(prop, tier, seed, i):
         "md_rate": rng.choice([0.2, 0.5, 0.7]),
         "p_mismatch": rng.choice([0.0, 0.05]),
         "p_share": rng.choice([0.0, 0.0, 0.5, 1.0]),
+        "p_gen": rng.choice([0.0, 0.0, 0.4, 0.8]),
         "hot": None,
     }
     # bias: a 'hot' sub-pool of few queries so that polluter and probe touch the same methods
@@ -196,7 +213,10 @@ def make_case(prop, tier, seed, i):
         name = None
         if cfg["hot"] and qb in cfg["hot"] and rng.random() < 0.8:
             name = rng.choice(cfg["hot"][qb])
-        q = _query(rng, qb, name=name, md_rate=cfg["md_rate"], ld=ld)
+        if cfg["p_gen"] and name is None and rng.random() < cfg["p_gen"]:
+            q = _gen_query(rng, qb)
+        else:
+            q = _query(rng, qb, name=name, md_rate=cfg["md_rate"], ld=ld)
         op = {"op": "translate", "slot": slot, "backend": eb, "query": q, "ld": ld, "fault": None,
               "share": rng.random() < cfg["p_share"]}
         if not last and rng.random() < cfg["p_fault"]:
